@@ -358,7 +358,7 @@ def crash_run(tid, scenario, call, k, excname):
     # the retrieval after the fault must work again as if nothing had happened
     again = outcome(sc['calls'][call])
     return {'tid': tid, 'op': 'run', 'kind': 'crash', 'scenario': scenario, 'events': rec.events, 'before': b, 'after': a, 'changed': changed,
-            'guard_after': guard_size(), 'results': [{'t': 0, 'call': call, 'res': res, 'alone': alone, 'again': again}], 'fault': {'k': k, 'exc': excname, 'site': inj.hit or 'none'},
+            'guard_after': guard_size(), 'results': [{'t': 0, 'call': call, 'res': res, 'raised': res.startswith('raise:'), 'alone': alone, 'again': again}], 'fault': {'k': k, 'exc': excname, 'site': inj.hit or 'none'},
             'case': {'kind': 'crash', 'scenario': scenario, 'call': call, 'k': k, 'exc': excname, 'site': inj.hit}}
 
 
@@ -484,7 +484,7 @@ def sched_run(tid, scenario, calls, schedule):
         uninstall()
     b, a, changed = snap_compare(before, sc['objs'])
     return {'tid': tid, 'op': 'run', 'kind': 'sched', 'scenario': scenario, 'events': rec.events, 'before': b, 'after': a, 'changed': changed,
-            'guard_after': guard_size(), 'results': [{'t': t, 'call': c, 'res': results[t], 'alone': alone[t], 'again': alone[t]} for t, c in enumerate(calls)],
+            'guard_after': guard_size(), 'results': [{'t': t, 'call': c, 'res': results[t], 'raised': results[t].startswith('raise:'), 'alone': alone[t], 'again': alone[t]} for t, c in enumerate(calls)],
             'fault': {'k': 0, 'exc': '-', 'site': '-'}, 'points': points,
             'case': {'kind': 'sched', 'scenario': scenario, 'calls': calls, 'schedule': [list(x) for x in schedule], 'points': points}}
 
@@ -665,7 +665,7 @@ def stress_run(tid, scenario, calls, rounds):
     res = []
     for t, c in enumerate(calls):
         bad = [r for r in results[t] if r != alone[t]]
-        res.append({'t': t, 'call': c, 'res': bad[0] if bad else alone[t], 'alone': alone[t], 'again': alone[t]})
+        res.append({'t': t, 'call': c, 'res': bad[0] if bad else alone[t], 'raised': (bad[0] if bad else alone[t]).startswith('raise:'), 'alone': alone[t], 'again': alone[t]})
     # the stress run keeps only the window events (ordered per thread by the recorder's lock) and one call interval per thread
     ev = [{'t': t, 'ev': 'CallStart', 'obj': '-', 'attr': '-'} for t in range(len(calls))] + rec.events + [{'t': t, 'ev': 'CallEnd', 'obj': '-', 'attr': '-'} for t in range(len(calls))]
     return {'tid': tid, 'op': 'run', 'kind': 'sched', 'scenario': scenario, 'events': ev[:4000], 'before': b, 'after': a, 'changed': changed, 'guard_after': guard_size(),
